@@ -58,7 +58,8 @@ type Config struct {
 	GraceYields int64
 	GraceTime   int64
 	GraceDecs   int64
-	KeepLog     bool // keep a textual event log (replay / debugging)
+	KeepLog     bool  // keep a textual event log (replay / debugging)
+	YieldNs     int64 // simulated CPU time of one passed yield point (function entry, loop iteration)
 }
 
 // Stall makes whichever task passes the global yield number At sleep for Dur ns.
@@ -614,6 +615,9 @@ func (s *sched) account(r *request) {
 		r.t.used += used
 	}
 	s.given = r.left
+	// executing code takes time: without this, tasks that spin through cheap work keep the
+	// clock still and starve every task that sleeps in a slow host function
+	simNow += used * s.cfg.YieldNs
 }
 
 // cont answers a bookkeeping request: same task continues, same quantum.
